@@ -250,7 +250,7 @@ def writer_inputs(rng: random.Random, tier: str, codes):
     # arrays
     for fn, item in (("compact_array_writer:int32", "I"), ("legacy_array_writer:int32", "I")):
         out.append((fn, ("N",)))
-        for n in (0, 1, 2, 3, 126, 127, 128, 300):
+        for n in (0, 1, 2, 3, 126, 127, 128, 300, 16384, 32767, 32768, 40000):
             out.append((fn, ("A", [("I", rng.randint(-2**31, 2**31 - 1)) for _ in range(n)])))
     for fn in ("compact_array_writer:compact_string", "legacy_array_writer:legacy_string"):
         out.append((fn, ("N",)))
@@ -330,6 +330,8 @@ def reader_inputs(rng: random.Random, tier: str, encoded: dict):
     for rfn, blobs in encoded.items():
         for b in blobs:
             out.append((rfn, b))
+            if len(b) > 20000:          # very long encodings: read back once, no derived variants
+                continue
             out.append((rfn, b + b"\x00\xff"))
             if len(b) <= 24:
                 for k in range(len(b)):
